@@ -15,8 +15,10 @@ EVERY `chunksize ≥ 1`:
   strictly sorted by `(bin1, bin2)`, with counts adding up to the number of records;
 * `hiclib_rejects_lower`, `hiclib_rejects_unsorted` — a lower-triangle record, or a chromosome id that
   heads two runs of the first column, is a `ValueError` (and the specification rejects the former too);
-* `hiclib_outside_accepted`, `hiclib_unlisted_counted` — what the code as it stands does where the
-  property demands a rejection / a drop (`decide`d witnesses; findings D28, D29 proposed).
+* `hiclib_outside_accepted`, `hiclib_unlisted_counted`, `hiclib_rowlabels_fails` — what the code as it
+  stands does where the property demands a rejection / a drop / indifference to the row labels of the
+  bin-table frame (`decide`d witnesses; findings D29, D30, D31); `binEndL_range`: with pandas'
+  default labels (the command line) the label lookup is the positional one the theorems are about.
 
 Proof route: the loop's slices `partsLoop` (a pure twin of `aggLoop`) tile the chromosome's records
 (`aggLoop_eq_seq`: `fuel = number of records` suffices because every turn consumes ≥ 1 record), are
@@ -617,6 +619,28 @@ theorem binEnd_ok {bins : BinTable} (hT : TableOK bins) {cid : Nat} {pos : Int}
   simp only [e]
   rw [if_neg (by omega), gx]
 
+theorem parts_subset (binEndOf : Int → Except Err Int) (cs : Nat) :
+    ∀ (f : Nat) (l : List HRec), ∀ P ∈ partsLoop binEndOf cs f l, ∀ x ∈ P, x ∈ l := by
+  intro f
+  induction f with
+  | zero => intro l P hP; simp [partsLoop] at hP
+  | succ f ihf =>
+    intro l P hP x hx
+    have : partsLoop binEndOf cs (f + 1) l =
+      (match l[min cs l.length - 1]? with
+        | none => []
+        | some last => match binEndOf last.p1 with
+          | .error _ => []
+          | .ok bend => l.take (cutAt bend l) :: partsLoop binEndOf cs f (l.drop (cutAt bend l))) := rfl
+    rw [this] at hP
+    split at hP
+    · simp at hP
+    · split at hP
+      · simp at hP
+      · rcases List.mem_cons.mp hP with e | hP
+        · rw [e] at hx; exact List.mem_of_mem_take hx
+        · exact List.mem_of_mem_drop (ihf _ P hP x hx)
+
 /-- the pixel row of a record's first side, as assigned -/
 def rowKey (bins : BinTable) (bs : Option Nat) (cid : Nat) (r : HRec) : Int := assignBin bins bs cid r.p1
 
@@ -668,32 +692,9 @@ theorem parts_sep {bins : BinTable} (hT : TableOK bins) {bs : Option Nat}
       refine ⟨?_, ih _ hinv'⟩
       intro Q hQ r hr s hs
       have hr' := List.mem_filter.mp hr
-      have hs0 : s ∈ (partsLoop (binEnd bins cid) cs fuel
-          (rem.filter fun a => !decide (a.p1 < (b.stop : Int)))).flatten := List.mem_flatten.mpr ⟨Q, hQ, hs⟩
       -- membership in the remaining records: every slice is a piece of them
-      have hs' : s ∈ rem.filter fun a => !decide (a.p1 < (b.stop : Int)) := by
-        have hsub : ∀ (f : Nat) (l : List HRec), ∀ x ∈ (partsLoop (binEnd bins cid) cs f l).flatten, x ∈ l := by
-          intro f
-          induction f with
-          | zero => intro l x hx; simp [partsLoop] at hx
-          | succ f ihf =>
-            intro l x hx
-            have : partsLoop (binEnd bins cid) cs (f + 1) l =
-              (match l[min cs l.length - 1]? with
-                | none => []
-                | some last => match binEnd bins cid last.p1 with
-                  | .error _ => []
-                  | .ok bend => l.take (cutAt bend l) :: partsLoop (binEnd bins cid) cs f (l.drop (cutAt bend l))) := rfl
-            rw [this] at hx
-            split at hx
-            · simp at hx
-            · split at hx
-              · simp at hx
-              · rw [List.flatten_cons, List.mem_append] at hx
-                rcases hx with hx | hx
-                · exact List.mem_of_mem_take hx
-                · exact List.mem_of_mem_drop (ihf _ x hx)
-        exact hsub _ _ s hs0
+      have hs' : s ∈ rem.filter fun a => !decide (a.p1 < (b.stop : Int)) :=
+        parts_subset _ _ _ _ Q hQ s hs
       have hs'' := List.mem_filter.mp hs'
       have hrp := hinv.pos r hr'.1
       have hsp := hinv.pos s hs''.1
@@ -701,28 +702,6 @@ theorem parts_sep {bins : BinTable} (hT : TableOK bins) {bs : Option Nat}
       have h2 : (b.stop : Int) ≤ s.p1 := by
         have := hs''.2; simp only [Bool.not_eq_true', decide_eq_false_iff_not] at this; omega
       exact sep_at_binEnd hT hb hb0 hbc hrp.1 hrp.2 hsp.1 hsp.2 h1 h2
-
-theorem parts_subset (binEndOf : Int → Except Err Int) (cs : Nat) :
-    ∀ (f : Nat) (l : List HRec), ∀ P ∈ partsLoop binEndOf cs f l, ∀ x ∈ P, x ∈ l := by
-  intro f
-  induction f with
-  | zero => intro l P hP; simp [partsLoop] at hP
-  | succ f ihf =>
-    intro l P hP x hx
-    have : partsLoop binEndOf cs (f + 1) l =
-      (match l[min cs l.length - 1]? with
-        | none => []
-        | some last => match binEndOf last.p1 with
-          | .error _ => []
-          | .ok bend => l.take (cutAt bend l) :: partsLoop binEndOf cs f (l.drop (cutAt bend l))) := rfl
-    rw [this] at hP
-    split at hP
-    · simp at hP
-    · split at hP
-      · simp at hP
-      · rcases List.mem_cons.mp hP with e | hP
-        · rw [e] at hx; exact List.mem_of_mem_take hx
-        · exact List.mem_of_mem_drop (ihf _ P hP x hx)
 
 /-! ## one chunk -/
 
@@ -843,7 +822,7 @@ theorem countP_map_c1 (recs : List HRec) (p : Int → Bool) :
 records, offset by the number of records before them -/
 theorem aggregate_sorted (bins : BinTable) (n : Nat) (bs : Option Nat) (cs : Nat) {recs : List HRec}
     (hs : C1Sorted recs) (c : Nat) :
-    aggregate bins n bs cs recs (runsFrom 0 (recs.map HRec.c1)) c =
+    aggregate (binEnd bins) bins n bs cs recs (runsFrom 0 (recs.map HRec.c1)) c =
       aggLoop (binEnd bins c) (procChunk bins n bs) cs (segOf recs c).length (loOf recs c) (segOf recs c) := by
   unfold aggregate
   have hcol : (recs.map HRec.c1).Pairwise (· ≤ ·) := by
@@ -939,7 +918,7 @@ theorem seg_inv {bins : BinTable} {n : Nat} {recs : List HRec} (hs : SortedH rec
 /-- **the stream is `procChunk` run over the slices, chromosome after chromosome** -/
 theorem stream_eq_seq {bins : BinTable} (hT : TableOK bins) {n : Nat} (bs : Option Nat) (cs : Nat)
     {recs : List HRec} (hs : SortedH recs) (hg : ∀ r ∈ recs, Good bins n r) :
-    ∀ (k c : Nat), streamOver (aggregate bins n bs cs recs (runsFrom 0 (recs.map HRec.c1))) (List.range' c k)
+    ∀ (k c : Nat), streamOver (aggregate (binEnd bins) bins n bs cs recs (runsFrom 0 (recs.map HRec.c1))) (List.range' c k)
       = seqLoop (procChunk bins n bs) (loOf recs c) (allParts bins cs recs (List.range' c k)) := by
   intro k
   induction k with
@@ -1258,7 +1237,7 @@ theorem hiclib_run {bins : BinTable} {n : Nat} {recs : List HRec} (hv : ValidInp
     {cs : Nat} (hcs : 1 ≤ cs) :
     hiclibChunks bins n cs recs =
       seqLoop (procChunk bins n (getBinsize bins)) 0 (allParts bins cs recs (List.range n)) := by
-  unfold hiclibChunks
+  unfold hiclibChunks hiclibChunksWith
   rw [if_neg (by omega)]
   have hcol : (recs.map HRec.c1).Pairwise (· ≤ ·) := by
     rw [List.pairwise_map]; exact c1Sorted_of_sortedH hv.sorted
@@ -1433,7 +1412,7 @@ theorem hiclib_rejects_unsorted (bins : BinTable) (n cs : Nat) (recs : List HRec
     unfold indexChroms
     simp only []
     rw [if_neg (fun hnd => hnb ((runs_nodup_iff 0 _).mp hnd))]
-  unfold hiclibStream hiclibChunks
+  unfold hiclibStream hiclibChunks hiclibChunksWith
   rw [hidx]
   by_cases hc0 : cs = 0 ∧ recs ≠ []
   · rw [if_pos hc0]
@@ -1503,7 +1482,7 @@ def hiclib_rejects_outside_Statement : Prop :=
   ∀ (bins : BinTable) (n cs : Nat) (recs : List HRec), TableOK bins → 1 ≤ cs → SortedH recs →
     outside bins n recs = true → isErr (hiclibStream bins n cs recs) = true
 
-/-- **`HDF5Aggregator` does not validate positions** (the code as it stands; proposed finding D28): the
+/-- **`HDF5Aggregator` does not validate positions** (the code as it stands; finding D29): the
 cut `4` on a chromosome of length 4 is accepted and counted in the first bin of the NEXT chromosome
 (`hiclib_outside_accepted`), where the specification rejects the file -/
 theorem hiclib_outside_accepted : ¬ hiclib_rejects_outside_Statement := by
@@ -1531,7 +1510,7 @@ def hiclib_drops_unlisted_Statement : Prop :=
     outside bins n recs = false →
     (hiclibStream bins n cs recs).map List.flatten = hiclibSpec bins n recs
 
-/-- **a second side on id `-1` (or `n`) is not dropped** (the code as it stands; proposed finding D29):
+/-- **a second side on id `-1` (or `n`) is not dropped** (the code as it stands; finding D30):
 with a variable-width table it is counted in the LAST bin of the table (`chrom_abspos[-1]` is the
 genome length), with a fixed-width table it gets the bin id `n_bins` -/
 theorem hiclib_unlisted_counted : ¬ hiclib_drops_unlisted_Statement := by
@@ -1560,5 +1539,78 @@ the bin found belongs to the next chromosome and ends at 2, before the cut); ins
 `hiclib_chunks_cover` it is dead (`parts_sep`: the tentative last record is below its own bin end) -/
 example : hiclibBounds [⟨0, 0, 2⟩, ⟨0, 2, 4⟩, ⟨1, 0, 2⟩, ⟨1, 2, 4⟩] 2 1 [⟨0, 1, 0, 1⟩, ⟨0, 5, 1, 3⟩, ⟨0, 6, 1, 3⟩]
     = .ok [(0, 1), (1, 3)] := by decide
+
+/-! ## row labels of the bin-table frame -/
+
+theorem zip_range_filter (l : List Bin) (k : Nat) (id : Int) :
+    (((List.range' k l.length).map Int.ofNat).zip l).filter (fun lb => decide (lb.1 = id)) =
+      if (k : Int) ≤ id then (match l[(id - (k : Int)).toNat]? with | some b => [(id, b)] | none => []) else [] := by
+  induction l generalizing k with
+  | nil => simp
+  | cons x rest ih =>
+    rw [List.length_cons, List.range'_succ, List.map_cons, List.zip_cons_cons]
+    by_cases hk : (k : Int) = id
+    · rw [List.filter_cons_of_pos (by simpa using hk), ih (k + 1)]
+      have h1 : ¬ (((k + 1 : Nat) : Int) ≤ id) := by omega
+      have h2 : (id - (k : Int)).toNat = 0 := by omega
+      rw [if_neg h1, if_pos (by omega), h2]
+      simp [hk]
+    · rw [List.filter_cons_of_neg (by simpa using hk), ih (k + 1)]
+      by_cases hle : (k : Int) ≤ id
+      · have h1 : ((k + 1 : Nat) : Int) ≤ id := by omega
+        have h2 : (id - (k : Int)).toNat = (id - ((k + 1 : Nat) : Int)).toNat + 1 := by omega
+        rw [if_pos h1, if_pos hle, h2, List.getElem?_cons_succ]
+      · have h1 : ¬ (((k + 1 : Nat) : Int) ≤ id) := by omega
+        rw [if_neg h1, if_neg hle]
+
+/-- with pandas' default row labels the label lookup `bins["end"][bin_id]` is the positional one -/
+theorem binEndL_range (bins : BinTable) (cid : Nat) (pos : Int) :
+    binEndL bins (rangeLabels bins) cid pos = binEnd bins cid pos := by
+  unfold binEndL binEnd rangeLabels
+  simp only []
+  rw [List.range_eq_range', zip_range_filter bins 0 (absBin bins cid pos)]
+  by_cases hneg : absBin bins cid pos < 0
+  · rw [if_neg (by omega), if_pos hneg]
+  · rw [if_pos (by omega), if_neg hneg]
+    simp only [Int.natCast_zero, Int.sub_zero]
+    cases bins[(absBin bins cid pos).toNat]? <;> rfl
+
+theorem hiclibChunksL_range (bins : BinTable) (n cs : Nat) (recs : List HRec) :
+    hiclibChunksL bins (rangeLabels bins) n cs recs = hiclibChunks bins n cs recs := by
+  unfold hiclibChunksL hiclibChunks
+  congr 1
+  funext cid pos
+  exact binEndL_range bins cid pos
+
+/-- the full wording for the Python API: the outcome does not depend on how the rows of the bin-table
+frame are LABELLED (any `labels` of the right length: same table, same file) -/
+def hiclib_rowlabels_Statement : Prop :=
+  ∀ (bins : BinTable) (labels : List Int) (n cs : Nat) (recs : List HRec), labels.length = bins.length →
+    ValidInput bins n recs → (∀ r ∈ recs, (anchorH r).lower = false) → 1 ≤ cs →
+    hiclibChunksL bins labels n cs recs = hiclibChunks bins n cs recs
+
+/-- **`bins["end"][bin_id]` is a lookup by row label** (the code as it stands; finding D31):
+the variable-width table `c0:[0,1),[1,4),[4,6) c1:[0,2),[2,3),[3,7)` handed over with its rows labelled
+`5,4,…,0` makes the loop cut after the second read pair of bin 1, so pixel `(1,1)` is emitted by two chunks
+(twice in the created cooler) — with the default labels it is emitted once, with count 3 -/
+theorem hiclib_rowlabels_fails : ¬ hiclib_rowlabels_Statement := by
+  intro h
+  have := h [⟨0, 0, 1⟩, ⟨0, 1, 4⟩, ⟨0, 4, 6⟩, ⟨1, 0, 2⟩, ⟨1, 2, 3⟩, ⟨1, 3, 7⟩] [5, 4, 3, 2, 1, 0] 2 1
+    [⟨0, 1, 0, 1⟩, ⟨0, 2, 0, 2⟩, ⟨0, 3, 0, 3⟩, ⟨0, 3, 1, 0⟩, ⟨0, 4, 0, 5⟩] rfl
+    ⟨⟨by decide, by
+      intro g hg
+      have : g ∈ [[(⟨0, 0, 1⟩ : Bin), ⟨0, 1, 4⟩, ⟨0, 4, 6⟩], [⟨1, 0, 2⟩, ⟨1, 2, 3⟩, ⟨1, 3, 7⟩]] := by
+        simpa [groups, chromOrder, groupOf] using hg
+      simp at this
+      rcases this with h | h <;> subst h <;> decide⟩, by decide, by decide⟩ (by decide) (by decide)
+  revert this
+  decide
+
+example : hiclibChunksL [⟨0, 0, 1⟩, ⟨0, 1, 4⟩, ⟨0, 4, 6⟩, ⟨1, 0, 2⟩, ⟨1, 2, 3⟩, ⟨1, 3, 7⟩] [5, 4, 3, 2, 1, 0] 2 1
+      [⟨0, 1, 0, 1⟩, ⟨0, 2, 0, 2⟩, ⟨0, 3, 0, 3⟩, ⟨0, 3, 1, 0⟩, ⟨0, 4, 0, 5⟩]
+    = .ok [((0, 2), [⟨(1, 1), 2, 0⟩]), ((2, 5), [⟨(1, 1), 1, 0⟩, ⟨(1, 3), 1, 0⟩, ⟨(2, 2), 1, 0⟩])] ∧
+    hiclibChunks [⟨0, 0, 1⟩, ⟨0, 1, 4⟩, ⟨0, 4, 6⟩, ⟨1, 0, 2⟩, ⟨1, 2, 3⟩, ⟨1, 3, 7⟩] 2 1
+      [⟨0, 1, 0, 1⟩, ⟨0, 2, 0, 2⟩, ⟨0, 3, 0, 3⟩, ⟨0, 3, 1, 0⟩, ⟨0, 4, 0, 5⟩]
+    = .ok [((0, 4), [⟨(1, 1), 3, 0⟩, ⟨(1, 3), 1, 0⟩]), ((4, 5), [⟨(2, 2), 1, 0⟩])] := by decide
 
 end Cooler.C05
